@@ -83,6 +83,12 @@ pub fn arg(ctx: &mut Ctx, s: &Strata) -> Dd {
             }
         }
     }
+    if ctx.chance(1, 12) {
+        if let Some(hi) = source_literal(ctx, s.emin, s.emax) {
+            let hi = if s.positive_only { hi.abs() } else { hi };
+            return if ctx.chance(1, 3) { Dd::new(hi, 0.0) } else { dd_at(ctx, hi) };
+        }
+    }
     let c = ctx.weighted(&[5, 5, 5]);
     let hi = match c {
         0 => {
@@ -170,6 +176,11 @@ pub fn force_grid(ctx: &mut Ctx, den: f64, positive_only: bool) -> u64 {
 pub fn any_valid(ctx: &mut Ctx) -> Dd {
     if let Some(c) = maybe_constant(ctx, 16, true) {
         return c;
+    }
+    if ctx.chance(1, 10) {
+        if let Some(hi) = source_literal(ctx, -1022, 1023) {
+            return if ctx.chance(1, 3) { Dd::new(hi, 0.0) } else { dd_at(ctx, hi) };
+        }
     }
     match ctx.weighted(&[5, 4, 3, 1, 1, 1]) {
         0 => {
